@@ -1,2 +1,5 @@
-import Tumfl.Props.C11
-#print axioms Tumfl.Props.C11_roundtrip
+import Tumfl.Props.C19
+import Tumfl.Props.C05
+#print axioms Tumfl.Props.C09_no_index_error
+#print axioms Tumfl.Props.C05_rejects_cleanly
+#print axioms Tumfl.Props.C05_terminates
